@@ -17,7 +17,8 @@ ALL_FEATURES = ['conic', 'asphere', 'poly', 'cheby', 'tilt', 'decenter',
                 'mirror', 'glass', 'abbe', 'absorb', 'finite_obj', 'vignette',
                 'coat_simple', 'coat_fresnel', 'polarized', 'aperture',
                 'bsdf', 'multi_wl', 'units', 'fno', 'na', 'obj_height',
-                'int_coeffs', 'glass_str', 'planes', 'stop_any', 'telecentric']
+                'int_coeffs', 'glass_str', 'planes', 'stop_any', 'telecentric',
+                'shared_material', 'glass_window']
 
 
 def pick_features(ch, allowed=None, p=0.3):
@@ -25,7 +26,17 @@ def pick_features(ch, allowed=None, p=0.3):
     return set(ch.subset(allowed, p, tag='features'))
 
 
+WINDOW_GLASSES = ['F2', 'K5', 'SK16', 'LAK9']
+
+
 def _medium(ch, feats):
+    if 'glass_window' in feats and ch.chance(0.6):
+        # same name, no reference, different wavelength windows: the
+        # catalogue search may resolve them to different data files
+        win = ch.pick([{}, {'max_wavelength': 2.4}, {'min_wavelength': 0.4},
+                       {'min_wavelength': 0.35, 'max_wavelength': 2.3}],
+                      tag='window')
+        return ['glass', ch.pick(WINDOW_GLASSES, tag='wglass'), None, win]
     opts = [('ideal', 3)]
     if 'glass' in feats:
         opts.append(('glass', 3))
@@ -105,7 +116,9 @@ def gen_lens(ch, feats, nsurf=None, harsh=False, max_surf=12):
         else:
             op['radius'] = _radius(ch, lo_r, 400.0)
             if 'conic' in feats and ch.chance(0.5):
-                op['conic'] = ch.rounded(ch.uniform(-2.0, 0.6), 4)
+                op['conic'] = ch.rounded(ch.uniform(-2.0, 0.6), 4) \
+                    if ch.chance(0.75) else ch.pick([-1, -1.0, 0, 0.0],
+                                                    tag='conicpal')
         if kind == 'even_asphere':
             nc = ch.randint(1, 3, tag='ncoef')
             if 'int_coeffs' in feats and ch.chance(0.3):
@@ -149,7 +162,16 @@ def gen_lens(ch, feats, nsurf=None, harsh=False, max_surf=12):
             if plane and ch.chance(0.5):
                 op['material'] = ['air']              # dummy / stop plane
             elif ch.chance(0.8) and not last:
-                op['material'] = _medium(ch, feats)
+                prev = [o for o in ops if o.get('share')]
+                if 'shared_material' in feats and prev and ch.chance(0.6):
+                    # the same material *object* as an earlier element
+                    op['material'] = list(prev[-1]['material'])
+                    op['share'] = prev[-1]['share']
+                else:
+                    op['material'] = _medium(ch, feats)
+                    if 'shared_material' in feats and \
+                            op['material'][0] in ('ideal', 'glass', 'abbe'):
+                        op['share'] = f'g{k}'
                 in_glass = True
             else:
                 op['material'] = ['air']
